@@ -288,6 +288,56 @@ class ManyMarkersSpec(Spec):
                 'case': {'wants': ws[:2], 'gots': len(gs)}}
 
 
+class ToggleSpec(Spec):
+    """ELLIPSIS switched on and off by assignment on one re-used RuntimeState, a check after every assignment:
+    with the flag on '...' is a wildcard, with it off it has no special meaning - whatever was asked before"""
+    prop = 'C06'
+    name = 'toggle-on-one-state'
+    title = 'ELLIPSIS toggled on a re-used RuntimeState object'
+    PAIRS = [('axb', 'a...b', True, False), ('a...b', 'a...b', True, True), ('ab', 'a...b', True, False), ('ac', 'a...b', False, False)]
+
+    def __init__(self, depth):
+        self.max_len = depth
+        self.max_cost = 99
+        self.rule = ('all sequences of <= %d assignments rs["ELLIPSIS"] = True/False on one RuntimeState (other leniencies off), '
+                     'each followed by %d checks with a known verdict for flag on / off; non-trivial = all' % (depth, len(self.PAIRS)))
+
+    def init(self):
+        return None
+
+    def enabled(self, S, hist):
+        return [True, False]
+
+    def step(self, S, ev):
+        return ev
+
+    def final(self, S, hist):
+        return len(hist) >= 1
+
+    def run_case(self, hist):
+        from xdoctest import checker, directive
+        r = directive.RuntimeState()
+        for k in ('NORMALIZE_WHITESPACE', 'IGNORE_WHITESPACE', 'NORMALIZE_REPR'):
+            r[k] = False
+        r['DONT_ACCEPT_BLANKLINE'] = True
+        atoms = []
+        n = 0
+        for i, v in enumerate(hist):
+            checker.check_output('axb', 'a...b', r)       # the state is looked at before it is changed
+            r['ELLIPSIS'] = v
+            for g, w, on, off in self.PAIRS:
+                n += 1
+                got = bool(checker.check_output(g, w, r))
+                exp = on if v else off
+                if got != exp:
+                    atoms.append({'sig': 'ellipsis:stale-flag-on-reused-state',
+                                  'msg': 'assignments %r: after setting ELLIPSIS=%s check_output(%r, %r) = %s, expected %s' % (list(hist[:i + 1]), v, g, w, got, exp)})
+                    break
+            if atoms:
+                break
+        return {'atoms': atoms, 'n': n, 'outcome': 'ok' if not atoms else 'bad', 'case': {'assignments': list(hist)}, 'nontrivial': 1}
+
+
 def gots_ab(n):
     for k in range(n + 1):
         for t in itertools.product('ab', repeat=k):
@@ -297,6 +347,6 @@ def gots_ab(n):
 def specs(tier):
     if tier == 'thorough':
         return [EllipsisSpec('match<=6x6', 6, 6), CheckOutputSpec('check_output<=5x5', 5, 5),
-                ManyMarkersSpec('markers<=16', 16, 9)]
+                ManyMarkersSpec('markers<=16', 16, 9), ToggleSpec(6)]
     return [EllipsisSpec('match<=5x5', 5, 5), CheckOutputSpec('check_output<=4x4', 4, 4),
-            ManyMarkersSpec('markers<=14', 14, 7)]
+            ManyMarkersSpec('markers<=14', 14, 7), ToggleSpec(4)]
